@@ -67,6 +67,7 @@ type World struct {
 	curAction  string
 	podIndex   map[string]int // pod object name -> 1-based scenario pod index
 	slow       map[string]bool // env slowbind: BindRequests of multi-device pods that were left half way once
+	acct       *acctRec        // optional (Options.Acct): node accounting observed at every simulation step (acctobs.go)
 	nodeIndex  map[string]int
 	jobIndex   map[string]int
 	queueIndex map[string]int
@@ -516,6 +517,9 @@ func (w *World) stmtHook(s *framework.Statement, ev string, task *pod_info.PodIn
 		w.emit(map[string]any{"ev": "CommitEnd", "stmt": id, "act": w.curAction})
 		w.curStmt = 0
 	}
+	if w.acct != nil {
+		w.acct.observe(ev, task)
+	}
 }
 
 // RunCycle runs one cycle; panics are caught and reported in the CycleEnd event.
@@ -561,17 +565,26 @@ func (w *World) RunCycle(c int) (err error) {
 		}
 		defer framework.CloseSession(ssn)
 		w.queueInfo(ssn)
+		if w.acct != nil {
+			w.acct.open(ssn, c)
+		}
 		acts, _ := conf_util.GetActionsFromConfig(sconf)
 		for _, a := range acts {
 			w.curAction = string(a.Name())
 			w.emit(map[string]any{"ev": "ActionStart", "name": w.curAction})
 			a.Execute(ssn)
 			w.emit(map[string]any{"ev": "ActionDone", "name": w.curAction})
+			if w.acct != nil {
+				w.acct.observe("action-done", nil)
+			}
 		}
 		w.curAction = ""
 		w.sessionInfo(ssn, "SessionEnd")
 	}()
 	framework.VerifStatementHook = nil
+	if w.acct != nil {
+		w.acct.flush()
+	}
 	sc.WaitForWorkers(stop)
 	w.drain()
 	w.emit(map[string]any{"ev": "CycleEnd", "c": c, "panic": panicMsg})
@@ -753,13 +766,25 @@ func (w *World) EnvStep() error {
 	return nil
 }
 
+// Options are optional recordings next to the decision trace.
+type Options struct {
+	// Acct, when set, receives the node-accounting observations of every simulation step (acctobs.go): a second
+	// trace in the record shapes of spec/NodeAcctCycleTrace.tla. The decision trace is not affected.
+	Acct Emitter
+}
+
 // Run executes the whole scenario: Scenario line, then cycles with environment steps in between.
-func Run(sc *Scenario, emit Emitter) error {
+func Run(sc *Scenario, emit Emitter) error { return RunWith(sc, emit, Options{}) }
+
+func RunWith(sc *Scenario, emit Emitter, opt Options) error {
 	w, err := NewWorld(sc, emit)
 	if err != nil {
 		return err
 	}
 	defer w.Close()
+	if opt.Acct != nil {
+		w.acct = newAcctRec(w, opt.Acct)
+	}
 	emit(map[string]any{"ev": "Scenario", "id": sc.ID, "class": sc.Class, "cfg": sc.Cfg, "nodes": sc.Nodes, "queues": sc.Queues,
 		"jobs": sc.Jobs, "pods": sc.Pods, "topo": sc.Topo})
 	for c := 1; c <= sc.Cfg.Cycles; c++ {
